@@ -23,7 +23,7 @@ def lexicon(dialect):
     D = DIALECTS[dialect]
     out = list(DECOYS)
     for c in ("feature", "rule", "background", "scenario", "scenarioOutline", "examples"):
-        out += [k + ":" for k in D[c][:2]] + [D[c][0] + ": n"]
+        out += [k + ":" for k in D[c][:2]] + [D[c][0] + ": n", D[c][0], D[c][-1] + "x", D[c][0] + " :"]  # and near misses: bare keyword, keyword+char
     for c in ("given", "when", "then", "and", "but"):
         out += [k + "x" for k in D[c][:2]]
     return out
@@ -149,7 +149,7 @@ def big_documents(thorough=False):
     """documents whose counts, line numbers, columns and ids cross digit boundaries (9/10, 99/100, 999/1000) - things a
     random structural generator rarely reaches.  -> [(name, text)] (valid and invalid ones)"""
     out = []
-    N = [9, 10, 11, 12, 99, 100, 101] + ([999, 1000, 1001] if thorough else [])
+    N = [9, 10, 11, 12, 32, 33, 99, 100, 101, 255, 256, 257, 258] + ([999, 1000, 1001] if thorough else [])
 
     def scen(i, steps=1, ind="  "):
         return ind + "Scenario: s%d\n" % i + "".join(ind + "  Given step %d of %d\n" % (j, i) for j in range(steps))
@@ -175,4 +175,10 @@ def big_documents(thorough=False):
         out.append(("bad-unexpected-indent-%d" % n, "Feature: f\n Scenario: s\n  Given x\n" + " " * n + "Examples:\n" + " " * n + "| a |\n" + "\t" * n + "nonsense\n"))
         out.append(("bad-many-errors-%d" % n, "Feature: f\n" + "".join(" Scenario: s%d\n  Given x\n  bad line %d\n" % (i, i) for i in range(n))))
         out.append(("bad-eof-in-docstring-%d" % n, "Feature: f\n Scenario: s\n  Given d\n   \"\"\"\n" + "x\n" * n))
+    for n in [65535, 65536, 65537, (1 << 20) - 1, 1 << 20, (1 << 20) + 1] + ([(1 << 21) + 3] if thorough else []):
+        long = "x" * n
+        out.append(("long-line-description-%d" % n, "Feature: f\n " + long + "\n Scenario: s\n  Given y\n"))
+        out.append(("long-line-step-%d" % n, "Feature: f\n Scenario: s\n  Given " + long + "\n  Then z\n"))
+        out.append(("long-line-comment-cell-%d" % n, "# " + long + "\nFeature: f\n Scenario: s\n  Given t\n   | " + long + " | b |\n"))
+        out.append(("bad-long-line-%d" % n, long + "\nFeature: f\n"))
     return out
